@@ -292,6 +292,16 @@ def run_case(case: Dict[str, Any]) -> CaseInfo:
             views[be]["closed_at"] = views[be]["closed_at"] is not None
             for iv in views[be]["instances"]:
                 iv["start_t"] = None
+    ga = [(v.get("h2") or {}).get("goaway") for v in views.values()]
+    if all(g is not None and g[1] != 0 for g in ga):
+        # a connection error ended both sessions: what the applications had already put on
+        # their streams when the error was processed is decided by the scheduler (the reader
+        # and the application tasks run in the same instant); the error itself must agree
+        for v in views.values():
+            v["h2"]["streams"] = {sid: sv for sid, sv in v["h2"]["streams"].items()
+                                  if all(sid in (w.get("h2") or {}).get("streams", {})
+                                         and w["h2"]["streams"][sid] == sv
+                                         for w in views.values())}
     d = diff(views["asyncio"], views["trio"])
     if d:
         field = d.split(":")[0].split(".")[1].split("[")[0] if "." in d else "?"
